@@ -90,6 +90,13 @@ class H(explore.Harness):
                          'flags': list(fk)}, limit=1)
 
 
+def _only(name):
+    """developer aid: C09_ONLY=<substring>,... restricts the run to the matching configurations (the run is then marked capped)"""
+    import os
+    only = [x for x in os.environ.get('C09_ONLY', '').split(',') if x]
+    return not only or any(x in name for x in only)
+
+
 def e_configs(ctx):
     base = dict(protocol_version=4, max_in_flight=4, orphaned_threshold=2, timeout=100.0)
     cfgs = [
@@ -113,8 +120,25 @@ def e_configs(ctx):
         # legacy pool: every connection of the pool is switched
         # (ids 0..3 per connection: a switch never finds a connection at full capacity, see the assumptions)
         ('v2-use', dict(base, protocol_version=2, max_in_flight=3, n_req=1, n_use=2, keyspaces=KS, max_faults=0), 6, 8),
+        # ---- prepared statements: the node answers an EXECUTE with UNPREPARED; the driver sends a PREPARE from an executor task,
+        # hands the PREPARE's answer to another executor task, and that one sends the EXECUTE again
+        # (send / answer / UNPREPARED / timeout / executor task in any order; ids 0..3)
+        ('v4-prep', dict(base, prepared=True, n_req=2, max_unprepared=2, max_faults=0), 8, 10),
+        # ids 0..2 (reuse at once) and one connection failure at any point of the chain
+        ('v4-prep-fault', dict(base, max_in_flight=3, initial_ids=1, prepared=True, n_req=2, max_unprepared=1, max_faults=1), 7, 9),
+        # legacy pool with two connections (3 ids each): the PREPARE goes out on the least busy connection of the pool
+        ('v2-pool-prep', dict(base, protocol_version=2, max_in_flight=2, prepared=True, n_req=3, max_unprepared=1, max_faults=0), 8, 10),
+        # the connection was replaced (orphan threshold) while an EXECUTE is outstanding on the old one
+        ('v4-prep-replaced', dict(base, prepared=True, n_req=4, max_unprepared=1, max_faults=0,
+                                  prologue=[('send',), ('send',), ('timeout', 0), ('timeout', 1), ('send',), ('task',)]), 5, 7),
+        # ---- the socket of a connection is not writable for a while (send buffer full): send_msg refuses the request with
+        # ConnectionBusy after the pool has handed out a slot and a stream id
+        ('v4-unwritable', dict(base, max_in_flight=3, initial_ids=1, n_req=3, max_unwritable=1, max_faults=0), 6, 8),
+        ('v2-pool-unwritable', dict(base, protocol_version=2, max_in_flight=1, n_req=3, max_unwritable=1, max_faults=0), 6, 8),
+        # ... at the sends of the re-prepare chain (PREPARE, second EXECUTE)
+        ('v4-prep-unwritable', dict(base, prepared=True, n_req=1, max_unprepared=1, max_unwritable=1, max_faults=0), 7, 9),
     ]
-    return [(n, p, dt if ctx.thorough else dq) for n, p, dq, dt in cfgs]
+    return [(n, p, dt if ctx.thorough else dq) for n, p, dq, dt in cfgs if _only(n)]
 
 
 def run_e(ctx):
@@ -254,7 +278,7 @@ def s_configs(ctx):
         # the session is already on ks1: the switch finds the connection on the requested keyspace
         ('onks1-use+1', dict(base, keyspaces=KS, n_use=9, setup=[('use', 0), ('respond', 0), ('respond', 0)], clients=[['use0'], 1]), 1, 1),
     ]
-    return [(n, p, bt if ctx.thorough else bq) for n, p, bq, bt in cfgs if (bt if ctx.thorough else bq) is not None]
+    return [(n, p, bt if ctx.thorough else bq) for n, p, bq, bt in cfgs if (bt if ctx.thorough else bq) is not None and _only(n)]
 
 
 def run_s(ctx):
@@ -280,6 +304,9 @@ def _layer(ctx, name, fn):
 
 
 def run(ctx):
+    import os
+    if os.environ.get('C09_ONLY'):
+        ctx.cap('C09_ONLY=%s: only the matching configurations were run' % os.environ['C09_ONLY'])
     _layer(ctx, 'E', run_e)
     del ctx.samples[4:]         # leave room for a written-out schedule of layer S
     _layer(ctx, 'S', run_s)
